@@ -28,14 +28,28 @@ UNPCK = {'punpcklbw': (8, 0), 'punpcklwd': (16, 0), 'punpckldq': (32, 0), 'punpc
          'punpckhqdq': (64, 1), 'unpcklps': (32, 0), 'unpckhps': (32, 1), 'unpcklpd': (64, 0), 'unpckhpd': (64, 1)}
 
 
+SWEEP_EXACT = {'pinsrb', 'pinsrw', 'pinsrd', 'pinsrq', 'pextrb', 'pextrw', 'pextrd', 'pextrq', 'pshufd', 'movlhps', 'movhlps',
+               'inserti128', 'insertf128', 'extracti128', 'extractf128', 'perm2i128', 'perm2f128'}
+
+
 def execute(E, st, ins):
     m, o = ins.mnem, ins.ops
     vex = m.startswith('v')
     base = m[1:] if vex else m
     if E.mode == 'sweep' and base not in ('movq', 'movd', 'zeroupper', 'zeroall'):
-        return None     # destination havoc'd by the caller
+        # sweep mode havocs SIMD destinations; with exact_moves (constant-time sweep) pure data movement stays exact so that
+        # pointers and lengths gathered through vector registers (gcc does that for small arrays) remain known
+        if not (getattr(E, 'exact_moves', False) and (m in MOVES or base in UNPCK or base in SWEEP_EXACT)
+                and not any(x.mask is not None or x.bcast for x in o)):
+            return None     # destination havoc'd by the caller
     if any(x.mask is not None or x.bcast for x in o):
         return avx512(E, st, ins)
+    if m.startswith(('k', 'vshuf', 'vextract', 'vinsert', 'vbroadcast', 'valign', 'vpternlog')) and m not in (
+            'vinserti128', 'vinsertf128', 'vextracti128', 'vextractf128', 'vbroadcasti128', 'vbroadcastf128', 'vbroadcastss', 'vbroadcastsd') \
+            and not (m.startswith('vshuf') and m in ('vshufps', 'vshufpd')):
+        r = evex_unmasked(E, st, ins)
+        if r is not None:
+            return r
     W = max([x.width for x in o if x.kind == 'vec'] or [128])
     nl = W // 128
 
@@ -57,7 +71,7 @@ def execute(E, st, ins):
             if x.kind == 'mem':
                 a = E.ea(st, ins, x)
                 need = (W // 8) if al == 0 else al
-                if need > 1:
+                if need > 1 and E.mode != 'sweep':
                     c = conc(a)
                     if c is not None:
                         if c % need:
@@ -351,6 +365,113 @@ def clmul(x, y):
     return CLMUL(x, y)
 
 
+def kmask(st, x, nelem):
+    """the concrete opmask of operand x restricted to nelem elements (the kernels build their masks from a concrete length)"""
+    kv = conc(simp(st.k[x.mask]))
+    if kv is None:
+        raise Unsupported('symbolic opmask k%d' % x.mask)
+    return kv & ((1 << nelem) - 1)
+
+
+EVEX_MOVES = {'vmovdqu8': 8, 'vmovdqu16': 16, 'vmovdqu32': 32, 'vmovdqu64': 64, 'vmovdqa32': 32, 'vmovdqa64': 64, 'vmovups': 32, 'vmovaps': 32, 'vmovupd': 64, 'vmovapd': 64}
+
+
 def avx512(E, st, ins):
-    """Masked / broadcast EVEX forms: a small exact subset; everything else is unsupported in precise mode."""
+    """Masked EVEX forms: the exact subset used by the VAES kernels (masked byte/element moves with a CONCRETE mask:
+    masked-out elements are neither read nor written, which is what C07 is about).  Everything else is unsupported."""
+    m, o = ins.mnem, ins.ops
+    if any(x.bcast for x in o):
+        return None
+    if m in EVEX_MOVES and len(o) == 2:
+        ew = EVEX_MOVES[m]
+        d, s = o[0], o[1]
+        W = max([x.width for x in o if x.kind == 'vec'] or [128])
+        n = W // ew
+        mk = kmask(st, d, n) if d.mask is not None else (1 << n) - 1
+        eb = ew // 8
+        if d.kind == 'vec':
+            old = lanes(Extract(W - 1, 0, st.v[d.reg]), ew)
+            if s.kind == 'vec':
+                new = lanes(Extract(W - 1, 0, st.v[s.reg]), ew)
+            else:
+                a = E.ea(st, ins, s)
+                new = [E.load(st, simp(a + i * eb), eb, ins) if (mk >> i) & 1 else None for i in range(n)]
+            res = [new[i] if (mk >> i) & 1 else (bv(0, ew) if d.zeroing else old[i]) for i in range(n)]
+            E.putv(st, ins, d, join(res), W, True)
+            return True
+        if d.kind == 'mem' and s.kind == 'vec':
+            a = E.ea(st, ins, d)
+            src = lanes(Extract(W - 1, 0, st.v[s.reg]), ew)
+            for i in range(n):
+                if (mk >> i) & 1:
+                    E.store(st, simp(a + i * eb), eb, src[i], ins)
+            return True
+    return None
+
+
+def evex_unmasked(E, st, ins):
+    """Unmasked AVX-512 lane shuffles / k-register moves.  Returns True when handled, None otherwise."""
+    m, o = ins.mnem, ins.ops
+    if m in ('kmovb', 'kmovw', 'kmovd', 'kmovq'):
+        w = {'b': 8, 'w': 16, 'd': 32, 'q': 64}[m[-1]]
+        d, s = o[0], o[1]
+        if s.kind == 'k':
+            v = Extract(w - 1, 0, st.k[s.reg])
+        elif s.kind == 'gpr':
+            v = Extract(w - 1, 0, st.r[s.reg])
+        else:
+            v = E.load(st, E.ea(st, ins, s), w // 8, ins)
+        if d.kind == 'k':
+            st.k[d.reg] = simp(ZeroExt(64 - w, v)) if w < 64 else simp(v)
+        elif d.kind == 'gpr':
+            ww = max(w, 32)
+            st.r[d.reg] = simp(ZeroExt(64 - w, v)) if w < 64 else simp(v)
+        else:
+            E.store(st, E.ea(st, ins, d), w // 8, v, ins)
+        return True
+    W = max([x.width for x in o if x.kind == 'vec'] or [128])
+    if m in ('vshufi64x2', 'vshuff64x2', 'vshufi32x4', 'vshuff32x4'):
+        a, b, imm = E.getv(st, ins, o[1], W), E.getv(st, ins, o[2], W), o[3].imm
+        la, lb = lanes(a, 128), lanes(b, 128)
+        if W == 512:
+            res = [la[imm & 3], la[(imm >> 2) & 3], lb[(imm >> 4) & 3], lb[(imm >> 6) & 3]]
+        else:
+            res = [la[imm & 1], lb[(imm >> 1) & 1]]
+        E.putv(st, ins, o[0], join(res), W, True)
+        return True
+    if m in ('vextracti32x4', 'vextractf32x4', 'vextracti64x2', 'vextractf64x2', 'vextracti64x4', 'vextractf64x4', 'vextracti32x8', 'vextractf32x8'):
+        w = 256 if m.endswith(('64x4', '32x8')) else 128
+        sw = o[1].width
+        v = lanes(Extract(sw - 1, 0, st.v[o[1].reg]), w)[o[2].imm % (sw // w)]
+        E.putv(st, ins, o[0], v, w, True)
+        return True
+    if m in ('vinserti32x4', 'vinsertf32x4', 'vinserti64x2', 'vinsertf64x2', 'vinserti64x4', 'vinsertf64x4', 'vinserti32x8', 'vinsertf32x8'):
+        w = 256 if m.endswith(('64x4', '32x8')) else 128
+        a, b, imm = E.getv(st, ins, o[1], W), E.getv(st, ins, o[2], w), o[3].imm
+        ls = lanes(a, w)
+        ls[imm % (W // w)] = b
+        E.putv(st, ins, o[0], join(ls), W, True)
+        return True
+    if m in ('vbroadcasti32x4', 'vbroadcastf32x4', 'vbroadcasti64x2', 'vbroadcastf64x2', 'vbroadcasti64x4', 'vbroadcastf64x4', 'vbroadcasti32x8', 'vbroadcastf32x8'):
+        w = 256 if m.endswith(('64x4', '32x8')) else 128
+        v = E.getv(st, ins, o[1], w)
+        E.putv(st, ins, o[0], join([v] * (W // w)), W, True)
+        return True
+    if m in ('valignq', 'valignd'):
+        ew = 64 if m == 'valignq' else 32
+        a, b, imm = E.getv(st, ins, o[1], W), E.getv(st, ins, o[2], W), o[3].imm
+        n = W // ew
+        sh = imm % n
+        both = lanes(b, ew) + lanes(a, ew)      # src2 low, src1 high
+        E.putv(st, ins, o[0], join(both[sh:sh + n]), W, True)
+        return True
+    if m in ('vpternlogq', 'vpternlogd'):
+        c_, a, b, imm = E.getv(st, ins, o[0], W), E.getv(st, ins, o[1], W), E.getv(st, ins, o[2], W), o[3].imm
+        res = bv(0, W)
+        for idx in range(8):
+            if (imm >> idx) & 1:
+                t = (c_ if idx & 4 else ~c_) & (a if idx & 2 else ~a) & (b if idx & 1 else ~b)
+                res = res | t
+        E.putv(st, ins, o[0], res, W, True)
+        return True
     return None
